@@ -129,3 +129,34 @@ SPECS += [
         props=["C01", "C02", "C06", "C09", "C10", "C14"],
     ),
 ]
+
+DX = "num(Rd(c, j, X)) - num(Rd(c, j - 1, X))"
+G, LS = "f'{N}_data.gain'", "f'{N}_data.loss'"
+SPECS += [
+    IndSpec(
+        "hexital.indicators.rsi.RSI",
+        params=dict(RV, period=("int", None), input_value=("name", None), s=("int", None)),
+        ctor={"skip": ("s",)},
+        lets=dict(LETS, X="input_value", w="s + period", D="f'{N}_data'"),
+        extra_pre=dict(PRE_RV, **{"period>=2": "period >= 2"}),
+        inputs={"X": ("s", "num")},
+        helpers=["f'{N}_data'"],
+        inv={
+            "data-none-during-warm-up": (f"implies(j < w, {R('D')} is None and {R(G)} is None and {R(LS)} is None)", ["C06"]),
+            "data-shape": (f"implies(j >= w, isdict({R('D')}) and isfloat({R(G)}) and isfloat({R(LS)}) and {NUM(G)} >= 0 and {NUM(LS)} >= 0)", ["C06", "C09"]),
+            "seed-mean-gain": (f"implies(j == w, {NUM(G)} * period == Sigma(j - period + 1, j + 1, lambda t: Max(num(Rd(c, t, X)) - num(Rd(c, t - 1, X)), 0)))", ["C06"], {"assume": False}),
+            "seed-mean-loss": (f"implies(j == w, {NUM(LS)} * period == Sigma(j - period + 1, j + 1, lambda t: Max(num(Rd(c, t - 1, X)) - num(Rd(c, t, X)), 0)))", ["C06"], {"assume": False}),
+            "wilder-gain": (f"implies(j > w, {NUM(G)} == ({NUM(G, 'j - 1')} * (period - 1) + Max({DX}, 0)) / period)", ["C06"]),
+            "wilder-loss": (f"implies(j > w, {NUM(LS)} == ({NUM(LS, 'j - 1')} * (period - 1) + Max(-({DX}), 0)) / period)", ["C06"]),
+            "presence": (f"iff({R('N')} is not None, j >= w)", ["C06", "C09"]),
+            "type": (f"implies(j >= w, isfloat({R('N')}))", ["C06", "C09"]),
+            "rounded": ROUNDED,
+            "rsi": (f"implies(j >= w and {NUM(LS)} > 0, Abs({NUM('N')} - (100 - 100 / (1 + {NUM(G)} / {NUM(LS)}))) <= eps)", ["C06"]),
+            "rsi-no-losses": (f"implies(j >= w and {NUM(LS)} == 0, {NUM('N')} == 100)", ["C06"]),
+            "0<=rsi<=100": (f"implies(j >= w, 0 <= {NUM('N')} and {NUM('N')} <= 100)", ["C10"]),
+        },
+        variants=[{}, {"input_value": "dotted"}],
+        window="period",
+        props=["C01", "C02", "C06", "C09", "C10", "C14"],
+    ),
+]
